@@ -546,6 +546,8 @@ def part_b_poll(ctx: Ctx, drv: LeanDriver) -> None:
                     inject_status(app, ids[i], inj[c], "other" if c == "p" else None, 0)
             for w, x in es:
                 o.waiting_for_results(ids[w], [ids[x]])
+            # a wait declared on an invocation that has already finished is not recorded (repair 6a5f3fe): those declarations do not exist
+            es = [(w, x) for w, x in es if st[x] != "f"]
             runnable = {i for i, c in enumerate(st) if c in "rt"}
             blocking = {x for _, x in es} - {w for w, _ in es}
             blocking &= runnable
